@@ -148,6 +148,7 @@ func (tm *TypeMap) structSort(t types.Type, st *types.Struct) string {
 	// mark as in-progress to break recursion (Go structs cannot contain themselves by value)
 	var fs []string
 	for i := 0; i < st.NumFields(); i++ {
+		selIndex.Store(tm.FieldSel(name, st, i), i)
 		fs = append(fs, fmt.Sprintf("(%s %s)", tm.FieldSel(name, st, i), tm.Sort(st.Field(i).Type())))
 	}
 	tm.d.Add("dt:"+name, fmt.Sprintf("(declare-datatypes ((%s 0)) (((mk.%s %s))))", name, name, strings.Join(fs, " ")))
